@@ -44,6 +44,9 @@ def _mod(name, path, is_package):
 def build_field(fs):
     from django.db import models
     cls = S.field_class(fs['type'])
+    if fs.get('sub'):
+        from vf import fieldlib
+        cls = fieldlib.SUB.get(cls, cls)
     attrs = dict(fs['attrs'])
     to = attrs.pop('to', None)
     if fs['type'] in ('FK', 'O2O'):
